@@ -5,6 +5,7 @@ import Bardolph.Driver.All
 import Bardolph.Audit.Tool
 import Bardolph.Props.C01
 import Bardolph.Props.C02
+import Bardolph.Props.C02Climb
 import Bardolph.Props.C03
 import Bardolph.Props.C04
 import Bardolph.Props.C05
